@@ -55,11 +55,15 @@ vars == <<top, win, tags, wire, npub, faults, cfg, pc, hub, hres, buf, sub, pend
 
 Positioned == cfg.kind \in {"pos", "rec", "cache"}
 Buffering  == Positioned /\ pc \in {"g1", "g2", "g3"}
-Filtered(tag) == cfg.filt /\ tag = "drop"
+\* Publications are tagged t = "keep", t = "drop" or carry no tags at all ("none"). A positive filter (t eq keep) admits
+\* only "keep"; a negative one (cfg.neg: t neq drop) admits everything except "drop", in particular untagged publications.
+Filtered(tag) == cfg.filt /\ (IF cfg.neg THEN tag = "drop" ELSE tag # "keep")
+TagsOffered == IF cfg.filt THEN {"keep", "drop", "none"} ELSE {"keep"}      \* without a filter the tag is irrelevant
 
 \* filt: the subscription has a tags filter that withholds publications tagged "drop"; sf: that filter is the
 \* server-side one (SubscribeOptions.ServerTagsFilter) rather than the client's (same semantics, other code path)
-Filt == {[filt |-> FALSE, sf |-> FALSE], [filt |-> TRUE, sf |-> FALSE], [filt |-> TRUE, sf |-> TRUE]}
+Filt == {[filt |-> FALSE, sf |-> FALSE, neg |-> FALSE], [filt |-> TRUE, sf |-> FALSE, neg |-> FALSE], [filt |-> TRUE, sf |-> TRUE, neg |-> FALSE],
+         [filt |-> TRUE, sf |-> FALSE, neg |-> TRUE], [filt |-> TRUE, sf |-> TRUE, neg |-> TRUE]}
 NoSince == [off |-> 0, ep |-> ""]
 \* noep: the broker reported an empty epoch at subscribe time (e.g. a lagging replica without the stream's meta):
 \* the subscription starts with epoch "" and adopts the epoch of the first publication it sees
@@ -69,21 +73,21 @@ NoSince == [off |-> 0, ep |-> ""]
 \* insufficient state later disconnects (3010) instead of unsubscribing; a failed subscribe is returned to the caller
 SFilt == {f \in Filt : f.filt => f.sf}
 ClientCfgs ==
-  {[kind |-> k, filt |-> f.filt, sf |-> f.sf, auto |-> FALSE, noep |-> FALSE, server |-> FALSE, since |-> NoSince] : k \in Kinds \ {"rec", "cache"}, f \in Filt}
-  \cup (IF "pos" \in Kinds THEN {[kind |-> "pos", filt |-> f.filt, sf |-> f.sf, auto |-> FALSE, noep |-> TRUE, server |-> FALSE, since |-> NoSince] : f \in Filt} ELSE {})
+  {[kind |-> k, filt |-> f.filt, sf |-> f.sf, neg |-> f.neg, auto |-> FALSE, noep |-> FALSE, server |-> FALSE, since |-> NoSince] : k \in Kinds \ {"rec", "cache"}, f \in Filt}
+  \cup (IF "pos" \in Kinds THEN {[kind |-> "pos", filt |-> f.filt, sf |-> f.sf, neg |-> f.neg, auto |-> FALSE, noep |-> TRUE, server |-> FALSE, since |-> NoSince] : f \in Filt} ELSE {})
   \cup (IF "rec" \in Kinds
-          THEN {[kind |-> "rec", filt |-> f.filt, sf |-> f.sf, auto |-> FALSE, noep |-> FALSE, server |-> FALSE, since |-> [off |-> o, ep |-> e]] :
+          THEN {[kind |-> "rec", filt |-> f.filt, sf |-> f.sf, neg |-> f.neg, auto |-> FALSE, noep |-> FALSE, server |-> FALSE, since |-> [off |-> o, ep |-> e]] :
                   f \in Filt, o \in 0..MaxPub, e \in {"", Ep, "e2"}}
           ELSE {})
   \cup (IF "cache" \in Kinds
-          THEN {[kind |-> "cache", filt |-> f.filt, sf |-> f.sf, auto |-> FALSE, noep |-> FALSE, server |-> FALSE, since |-> [off |-> o, ep |-> e]] :
+          THEN {[kind |-> "cache", filt |-> f.filt, sf |-> f.sf, neg |-> f.neg, auto |-> FALSE, noep |-> FALSE, server |-> FALSE, since |-> [off |-> o, ep |-> e]] :
                   f \in Filt, o \in 0..MaxPub, e \in {"", Ep, "e2"}}
-               \cup {[kind |-> "cache", filt |-> f.filt, sf |-> f.sf, auto |-> TRUE, noep |-> FALSE, server |-> FALSE, since |-> NoSince] : f \in Filt}
+               \cup {[kind |-> "cache", filt |-> f.filt, sf |-> f.sf, neg |-> f.neg, auto |-> TRUE, noep |-> FALSE, server |-> FALSE, since |-> NoSince] : f \in Filt}
           ELSE {})
 ServerCfgs ==
-  {[kind |-> k, filt |-> f.filt, sf |-> f.sf, auto |-> FALSE, noep |-> FALSE, server |-> TRUE, since |-> NoSince] : k \in Kinds \cap {"pos", "plain", "nohist"}, f \in SFilt}
+  {[kind |-> k, filt |-> f.filt, sf |-> f.sf, neg |-> f.neg, auto |-> FALSE, noep |-> FALSE, server |-> TRUE, since |-> NoSince] : k \in Kinds \cap {"pos", "plain", "nohist"}, f \in SFilt}
   \cup (IF "rec" \in Kinds
-          THEN {[kind |-> "rec", filt |-> f.filt, sf |-> f.sf, auto |-> FALSE, noep |-> FALSE, server |-> TRUE, since |-> [off |-> o, ep |-> e]] :
+          THEN {[kind |-> "rec", filt |-> f.filt, sf |-> f.sf, neg |-> f.neg, auto |-> FALSE, noep |-> FALSE, server |-> TRUE, since |-> [off |-> o, ep |-> e]] :
                   f \in SFilt, o \in 0..MaxPub, e \in {"", Ep, "e2"}}
           ELSE {})
 Cfgs == (IF FALSE \in Servers THEN ClientCfgs ELSE {}) \cup (IF TRUE \in Servers THEN ServerCfgs ELSE {})
@@ -280,7 +284,7 @@ SubFinish ==
 
 Next ==
   IF UrgentAsync /\ pend > 0 THEN AsyncEnd ELSE
-  \/ \E t \in {"keep", "drop"} : Publish(t)
+  \/ \E t \in TagsOffered : Publish(t)
   \/ ClearHistory
   \/ \E d \in wire : Drop(d)
   \/ \E d \in wire, k \in BOOLEAN, f \in BOOLEAN, l \in BOOLEAN : Deliver(d, k, f, l)
